@@ -39,6 +39,7 @@ def dispatch (line : String) : String :=
     | "clientaddr" => cmdClientAddr m
     | "cookie" => cmdCookie m
     | "ntlm" => cmdNtlm m
+    | "oidc-callback" => cmdOidcCallback m
     | "kdc-decode" => cmdKdcDecode m
     | "kdc-encode" => cmdKdcEncode m
     | "kdc-reply" => cmdKdcReply m
